@@ -270,10 +270,62 @@ func registerSync(ex *Exec) {
 	}
 	I["(*sync.Mutex).Lock"] = lock("Lock")
 	I["(*sync.Mutex).Unlock"] = unlock("Unlock")
-	I["(*sync.RWMutex).Lock"] = lock("Lock")
+	I["(*sync.RWMutex).Lock"] = func(ex *Exec, st *State, args []Value, call ssa.CallInstruction) (Value, bool) {
+		key := lockKey(args[0].(Ptr))
+		ex.visible(st, "Lock "+key)
+		if st.Locks["r"+key] == 0 && ex.tryLock(st, key) {
+			return nil, true
+		}
+		return ex.blockOn(st, GBlockedLock, key)
+	}
 	I["(*sync.RWMutex).Unlock"] = unlock("Unlock")
-	I["(*sync.RWMutex).RLock"] = lock("RLock") // prototype: readers are exclusive
-	I["(*sync.RWMutex).RUnlock"] = unlock("RUnlock")
+	I["(*sync.RWMutex).RLock"] = func(ex *Exec, st *State, args []Value, call ssa.CallInstruction) (Value, bool) {
+		key := lockKey(args[0].(Ptr))
+		ex.visible(st, "RLock "+key)
+		if st.Locks == nil {
+			st.Locks = map[string]int{}
+		}
+		if st.Locks[key] == 0 {
+			st.Locks["r"+key]++
+			st.g().Held = append(st.g().Held, "r"+key)
+			return nil, true
+		}
+		return ex.blockOn(st, GBlockedLock, key)
+	}
+	I["(*sync.RWMutex).RUnlock"] = func(ex *Exec, st *State, args []Value, call ssa.CallInstruction) (Value, bool) {
+		key := lockKey(args[0].(Ptr))
+		ex.visible(st, "RUnlock "+key)
+		if st.Locks["r"+key] == 0 {
+			ex.goPanic(st, "sync: RUnlock of unlocked RWMutex")
+		}
+		st.Locks["r"+key]--
+		g := st.g()
+		for i, k := range g.Held {
+			if k == "r"+key {
+				g.Held = append(append([]string(nil), g.Held[:i]...), g.Held[i+1:]...)
+				break
+			}
+		}
+		if st.Locks["r"+key] == 0 {
+			for _, o := range st.Gs {
+				if o.Status == GBlockedLock && o.WaitKey == key {
+					o.Status = GRunnable
+					o.NoYield = true
+				}
+			}
+		}
+		return nil, true
+	}
+	tryLockI := func(ex *Exec, st *State, args []Value, call ssa.CallInstruction) (Value, bool) {
+		key := lockKey(args[0].(Ptr))
+		ex.visible(st, "TryLock "+key)
+		if st.Locks["r"+key] == 0 && ex.tryLock(st, key) {
+			return ex.C.True, true
+		}
+		return ex.C.False, true
+	}
+	I["(*sync.Mutex).TryLock"] = tryLockI
+	I["(*sync.RWMutex).TryLock"] = tryLockI
 
 	I["sync.NewCond"] = func(ex *Exec, st *State, args []Value, call ssa.CallInstruction) (Value, bool) {
 		t := ex.Prog.ImportedPackage("sync").Type("Cond").Type()
